@@ -1,30 +1,48 @@
 ------------------------------ MODULE SleepFSM ------------------------------
 (***************************************************************************)
-(* Sleep-mode state machine of internal/sleep (sleep.Manager).             *)
+(* Sleep-mode state machine of internal/sleep (sleep.Manager) and the      *)
+(* agent-level poll cycle built on it (agent.doPoll).                      *)
 (*                                                                         *)
-(* One action per critical section of the code:                            *)
-(*   SleepCall, WakeCall   Manager.Sleep / Manager.Wake: the whole call,   *)
-(*                   including its OnSleep / OnWake callback, runs under   *)
-(*                   stateMu, so concurrent callers are interleavings of   *)
-(*                   atomic calls (any number of callers, MaxCalls calls). *)
+(* One action per critical section of the code; a call is split wherever   *)
+(* another thread can arrive while it runs:                                *)
+(*   SleepBegin / SleepEnd, WakeBegin / WakeEnd                            *)
+(*                   Manager.Sleep / Manager.Wake take stateMu, check the  *)
+(*                   state (a redundant call is refused at once), run      *)
+(*                   their OnSleep / OnWake callback UNDER THE LOCK (in    *)
+(*                   the agent: disconnect / reconnect, seconds) and then  *)
+(*                   store the new state, (re)arm the timer and persist.   *)
+(*                   `lock` says who is inside its callback.               *)
 (*   TimerFire       the poll timer fires: its goroutine exists but has    *)
-(*                   not reached stateMu yet (no visible effect).          *)
-(*   PollBegin       Manager.Poll, first critical section: skip unless     *)
-(*                   SLEEPING, else SLEEPING -> POLLING, unlock            *)
+(*                   not entered Poll yet (no visible effect).             *)
+(*   PollEnter       the timer goroutine enters Manager.Poll while the     *)
+(*                   lock is held by a Sleep / Wake callback: it waits for *)
+(*                   the lock (`waiter`) and performs its first critical   *)
+(*                   section as soon as the holder releases it, i.e. with  *)
+(*                   the state the holder leaves behind (hand-off in       *)
+(*                   SleepEnd / WakeEnd).                                  *)
+(*   PollBegin       ... or with the lock free: first critical section at  *)
+(*                   once: skip unless SLEEPING, else SLEEPING -> POLLING  *)
 (*                   (scheduling point sleep.poll.unlocked).               *)
 (*   PollCallback    the poll activity enters the OnPoll callback          *)
-(*                   (reconnect; in the agent it lasts a poll window).     *)
-(*   PollWait        the callback returns, the poll duration passes        *)
-(*                   (scheduling point sleep.poll.relock).                 *)
-(*   PollEnd         second critical section: OnPollEnd (disconnect),      *)
-(*                   POLLING -> SLEEPING, re-arm the timer, persist.       *)
+(*                   = agent.doPoll starts: poll listeners + reconnect     *)
+(*                   (AgentPollStart).                                     *)
+(*   PollWait        the callback returns = the agent's poll window ends   *)
+(*                   (AgentPollEnd): still asleep -> DisconnectAll + close *)
+(*                   the poll listeners; woken meanwhile -> keep them.     *)
+(*                   Then the manager's poll duration passes (scheduling   *)
+(*                   point sleep.poll.relock).                             *)
+(*   PollEnd         second critical section: OnPollEnd, POLLING ->        *)
+(*                   SLEEPING, re-arm the timer, persist.                  *)
+(*   Restart         the process is replaced: a new Manager on the same    *)
+(*                   state file + LoadState (what Agent.Start does).       *)
 (* Several poll activities can be in flight (a timer that fired before a   *)
 (* wake + a timer of the next sleep period).                               *)
 (*                                                                         *)
 (* `wakes` counts completed wakes; every poll activity remembers the count *)
-(* at its PollBegin (`gen`): "a wake has completed since this activity     *)
-(* started"  ==  gen # wakes.  The design that satisfies C30 abandons such *)
-(* an activity: no OnPoll, no OnPollEnd, no POLLING->SLEEPING, no re-arm.  *)
+(* at its first critical section (`gen`): "a wake has completed since this *)
+(* activity started"  ==  gen # wakes.  The design that satisfies C30      *)
+(* abandons such an activity: no OnPoll, no OnPollEnd, no                  *)
+(* POLLING->SLEEPING, no re-arm, and the agent does not disconnect.        *)
 (*                                                                         *)
 (* Deviations (each REPLACES the ideal behaviour at its site):             *)
 (*   DevPollCallbackAfterWake  OnPoll is invoked without looking at the    *)
@@ -35,15 +53,20 @@
 (*   DevWakeNoPersist        Wake does not write the state file            *)
 (*   DevSleepWhilePolling    Sleep is accepted while POLLING               *)
 (*   DevPollFromAwake        PollBegin does not test the state             *)
+(*   DevPollFastPath         Poll tests the state BEFORE it takes the lock *)
+(*                   and not again once it holds it                        *)
+(*   DevAgentPollEndIgnoresWake  the agent's poll window ends with         *)
+(*                   DisconnectAll although a wake completed meanwhile     *)
 (***************************************************************************)
 EXTENDS Naturals, Sequences, FiniteSets, TLC, Json
 
-CONSTANTS MaxCalls,   \* Sleep/Wake calls (all callers together)
-          MaxPolls,   \* timer firings / poll activities
+CONSTANTS MaxCalls,    \* Sleep/Wake calls (all callers together)
+          MaxPolls,    \* timer firings / poll activities
+          MaxRestarts, \* process restarts (new manager on the same state file)
           Dev, Emit
 
 DevNames == {"DevPollCallbackAfterWake", "DevStalePollEnd", "DevWakeNoPersist", "DevSleepWhilePolling",
-             "DevPollFromAwake"}
+             "DevPollFromAwake", "DevPollFastPath", "DevAgentPollEndIgnoresWake"}
 ASSUME Dev \subseteq DevNames
 Polls == 1..MaxPolls
 
@@ -53,109 +76,172 @@ DocEdges == {<<"AWAKE", "SLEEPING">>, <<"SLEEPING", "POLLING">>, <<"POLLING", "S
 
 VARIABLES st,       \* "AWAKE" | "SLEEPING" | "POLLING"
           file,     \* content of sleep_state.json: "none" (no file) | a state name
+          flp,      \* the last-poll time stored in the file is set
+          lock,     \* "free" | "sleep" | "wake": a Sleep / Wake call is inside its callback, holding stateMu
+          waiter,   \* poll activity waiting for stateMu (0 = none)
           armed,    \* a poll timer is pending (can fire)
           tset,     \* Manager.pollTimer # nil          (observable)
           nextSet,  \* Manager.nextPollTime is set       (observable)
           lp,       \* Manager.lastPollTime is set       (observable)
           pending,  \* timer goroutines that fired and have not entered Poll yet
-          poll,     \* [Polls -> [pc : {"none","unlocked","inCallback","relock","done"}, gen : Nat]]
+          poll,     \* [Polls -> [pc : {"none","waiting","unlocked","inCallback","relock","done"}, gen : Nat,
+                    \*            saw : BOOLEAN (DevPollFastPath: the state was SLEEPING at the unlocked test)]]
           npolls,   \* poll activities begun
           ncalls,   \* Sleep/Wake calls made
+          nrestarts,
           wakes,    \* completed wakes
+          conn,     \* agent level: listeners up and peers (re)connected
           stale,    \* ghost: a poll activity reconnected / disconnected / re-slept after a wake that completed
                     \*        after the activity had started
+          undone,   \* ghost: the agent's poll window ended with a disconnect although the agent was AWAKE
           last
 
-core == <<st, file, armed, tset, nextSet, lp, pending, poll, npolls, ncalls, wakes>>
-vars == <<core, stale, last>>
-view == <<core, stale>>
+core == <<st, file, flp, lock, waiter, armed, tset, nextSet, lp, pending, poll, npolls, ncalls, nrestarts, wakes, conn>>
+vars == <<core, stale, undone, last>>
+view == <<core, stale, undone>>
 
 NoCb == <<>>
 Cb(name, at) == <<[cb |-> name, at |-> at]>>
+PollRec(pc, gen, saw) == [pc |-> pc, gen |-> gen, saw |-> saw]
 
 Init ==
-  /\ st = "AWAKE" /\ file = "none" /\ armed = FALSE /\ tset = FALSE /\ nextSet = FALSE /\ lp = FALSE
-  /\ pending = 0 /\ poll = [p \in Polls |-> [pc |-> "none", gen |-> 0]] /\ npolls = 0 /\ ncalls = 0 /\ wakes = 0
-  /\ stale = FALSE
+  /\ st = "AWAKE" /\ file = "none" /\ flp = FALSE /\ lock = "free" /\ waiter = 0
+  /\ armed = FALSE /\ tset = FALSE /\ nextSet = FALSE /\ lp = FALSE
+  /\ pending = 0 /\ poll = [p \in Polls |-> PollRec("none", 0, FALSE)] /\ npolls = 0 /\ ncalls = 0 /\ nrestarts = 0
+  /\ wakes = 0 /\ conn = TRUE /\ stale = FALSE /\ undone = FALSE
   /\ last = [act |-> "Init"]
 
-(* Manager.Sleep *)
-SleepCall ==
-  /\ ncalls < MaxCalls /\ ncalls' = ncalls + 1
+\* does the waiting poll activity w start polling when the lock holder leaves state s behind ?
+WaiterPolls(w, s) == w > 0 /\ (IF "DevPollFastPath" \in Dev THEN poll[w].saw
+                               ELSE s = "SLEEPING" \/ ("DevPollFromAwake" \in Dev /\ s = "AWAKE"))
+Handoff(w, s, g) == IF w = 0 THEN poll
+                    ELSE [poll EXCEPT ![w] = PollRec(IF WaiterPolls(w, s) THEN "unlocked" ELSE "done", g, FALSE)]
+HandoffRes(w, s) == IF w = 0 THEN "none" ELSE IF WaiterPolls(w, s) THEN "polling" ELSE "skipped"
+
+(* Manager.Sleep up to (and inside) its OnSleep callback *)
+SleepBegin ==
+  /\ lock = "free" /\ ncalls < MaxCalls /\ ncalls' = ncalls + 1
   /\ IF st = "AWAKE" \/ ("DevSleepWhilePolling" \in Dev /\ st = "POLLING")
-       THEN /\ st' = "SLEEPING" /\ armed' = TRUE /\ tset' = TRUE /\ nextSet' = TRUE /\ lp' = FALSE
-            /\ file' = "SLEEPING"
-            /\ last' = [act |-> "SleepCall", p |-> 0, res |-> "ok", cbs |-> Cb("OnSleep", st)]
-       ELSE /\ UNCHANGED <<st, armed, tset, nextSet, lp, file>>
-            /\ last' = [act |-> "SleepCall", p |-> 0, res |-> "refused", cbs |-> NoCb]
-  /\ UNCHANGED <<pending, poll, npolls, wakes, stale>>
+       THEN /\ lock' = "sleep" /\ conn' = FALSE
+            /\ last' = [act |-> "SleepBegin", p |-> 0, res |-> "callback", cbs |-> Cb("OnSleep", st), handoff |-> "none"]
+       ELSE /\ UNCHANGED <<lock, conn>>
+            /\ last' = [act |-> "SleepBegin", p |-> 0, res |-> "refused", cbs |-> NoCb, handoff |-> "none"]
+  /\ UNCHANGED <<st, file, flp, waiter, armed, tset, nextSet, lp, pending, poll, npolls, nrestarts, wakes, stale, undone>>
 
-(* Manager.Wake *)
-WakeCall ==
-  /\ ncalls < MaxCalls /\ ncalls' = ncalls + 1
+(* ... the callback returns: store SLEEPING, arm the timer, persist, unlock (a waiting poll goes on at once) *)
+SleepEnd ==
+  /\ lock = "sleep" /\ lock' = "free" /\ waiter' = 0
+  /\ st' = IF WaiterPolls(waiter, "SLEEPING") THEN "POLLING" ELSE "SLEEPING"
+  /\ lp' = WaiterPolls(waiter, "SLEEPING")
+  /\ armed' = TRUE /\ tset' = TRUE /\ nextSet' = TRUE /\ file' = "SLEEPING" /\ flp' = FALSE
+  /\ poll' = Handoff(waiter, "SLEEPING", wakes)
+  /\ UNCHANGED <<pending, npolls, ncalls, nrestarts, wakes, conn, stale, undone>>
+  /\ last' = [act |-> "SleepEnd", p |-> waiter, res |-> "ok", cbs |-> NoCb, handoff |-> HandoffRes(waiter, "SLEEPING")]
+
+(* Manager.Wake up to (and inside) its OnWake callback; the timer is stopped before the callback *)
+WakeBegin ==
+  /\ lock = "free" /\ ncalls < MaxCalls /\ ncalls' = ncalls + 1
   /\ IF st # "AWAKE"
-       THEN /\ st' = "AWAKE" /\ armed' = FALSE /\ tset' = FALSE /\ nextSet' = FALSE
-            /\ file' = IF "DevWakeNoPersist" \in Dev THEN file ELSE "AWAKE"
-            /\ wakes' = wakes + 1
-            /\ last' = [act |-> "WakeCall", p |-> 0, res |-> "ok", cbs |-> Cb("OnWake", st)]
-       ELSE /\ UNCHANGED <<st, armed, tset, nextSet, file, wakes>>
-            /\ last' = [act |-> "WakeCall", p |-> 0, res |-> "refused", cbs |-> NoCb]
-  /\ UNCHANGED <<lp, pending, poll, npolls, stale>>
+       THEN /\ lock' = "wake" /\ armed' = FALSE /\ tset' = FALSE /\ conn' = TRUE
+            /\ last' = [act |-> "WakeBegin", p |-> 0, res |-> "callback", cbs |-> Cb("OnWake", st), handoff |-> "none"]
+       ELSE /\ UNCHANGED <<lock, armed, tset, conn>>
+            /\ last' = [act |-> "WakeBegin", p |-> 0, res |-> "refused", cbs |-> NoCb, handoff |-> "none"]
+  /\ UNCHANGED <<st, file, flp, waiter, nextSet, lp, pending, poll, npolls, nrestarts, wakes, stale, undone>>
 
-(* the armed timer fires (one shot); the goroutine it starts has not reached Poll's lock yet *)
+WakeEnd ==
+  /\ lock = "wake" /\ lock' = "free" /\ waiter' = 0
+  /\ st' = IF WaiterPolls(waiter, "AWAKE") THEN "POLLING" ELSE "AWAKE"
+  /\ lp' = (lp \/ WaiterPolls(waiter, "AWAKE"))
+  /\ nextSet' = FALSE
+  /\ file' = IF "DevWakeNoPersist" \in Dev THEN file ELSE "AWAKE"
+  /\ flp' = IF "DevWakeNoPersist" \in Dev THEN flp ELSE lp
+  /\ wakes' = wakes + 1
+  /\ poll' = Handoff(waiter, "AWAKE", wakes + 1)
+  /\ UNCHANGED <<armed, tset, pending, npolls, ncalls, nrestarts, conn, stale, undone>>
+  /\ last' = [act |-> "WakeEnd", p |-> waiter, res |-> "ok", cbs |-> NoCb, handoff |-> HandoffRes(waiter, "AWAKE")]
+
+(* the armed timer fires (one shot); the goroutine it starts has not entered Poll yet *)
 TimerFire ==
   /\ armed /\ npolls + pending < MaxPolls
   /\ armed' = FALSE /\ pending' = pending + 1
-  /\ UNCHANGED <<st, file, tset, nextSet, lp, poll, npolls, ncalls, wakes, stale>>
-  /\ last' = [act |-> "TimerFire", p |-> 0, res |-> "ok", cbs |-> NoCb]
+  /\ UNCHANGED <<st, file, flp, lock, waiter, tset, nextSet, lp, poll, npolls, ncalls, nrestarts, wakes, conn, stale, undone>>
+  /\ last' = [act |-> "TimerFire", p |-> 0, res |-> "ok", cbs |-> NoCb, handoff |-> "none"]
 
-(* Manager.Poll, first critical section *)
+(* the timer goroutine enters Manager.Poll while a Sleep / Wake call holds the lock in its callback *)
+PollEnter ==
+  /\ pending > 0 /\ lock # "free" /\ waiter = 0
+  /\ pending' = pending - 1 /\ npolls' = npolls + 1
+  /\ LET p == npolls + 1 IN
+     IF "DevPollFastPath" \in Dev /\ st # "SLEEPING"
+       THEN /\ poll' = [poll EXCEPT ![p] = PollRec("done", wakes, FALSE)] /\ UNCHANGED waiter
+            /\ last' = [act |-> "PollEnter", p |-> p, res |-> "skipped", cbs |-> NoCb, handoff |-> "none"]
+       ELSE /\ poll' = [poll EXCEPT ![p] = PollRec("waiting", 0, st = "SLEEPING")] /\ waiter' = p
+            /\ last' = [act |-> "PollEnter", p |-> p, res |-> "waiting", cbs |-> NoCb, handoff |-> "none"]
+  /\ UNCHANGED <<st, file, flp, lock, armed, tset, nextSet, lp, ncalls, nrestarts, wakes, conn, stale, undone>>
+
+(* Manager.Poll, first critical section, lock free *)
 PollBegin ==
-  /\ pending > 0 /\ pending' = pending - 1
+  /\ pending > 0 /\ lock = "free" /\ pending' = pending - 1
   /\ npolls' = npolls + 1
   /\ LET p == npolls + 1 IN
      IF st = "SLEEPING" \/ ("DevPollFromAwake" \in Dev /\ st = "AWAKE")
        THEN /\ st' = "POLLING" /\ lp' = TRUE
-            /\ poll' = [poll EXCEPT ![p] = [pc |-> "unlocked", gen |-> wakes]]
-            /\ last' = [act |-> "PollBegin", p |-> p, res |-> "polling", cbs |-> NoCb]
+            /\ poll' = [poll EXCEPT ![p] = PollRec("unlocked", wakes, FALSE)]
+            /\ last' = [act |-> "PollBegin", p |-> p, res |-> "polling", cbs |-> NoCb, handoff |-> "none"]
        ELSE /\ UNCHANGED <<st, lp>>
-            /\ poll' = [poll EXCEPT ![p] = [pc |-> "done", gen |-> wakes]]
-            /\ last' = [act |-> "PollBegin", p |-> p, res |-> "skipped", cbs |-> NoCb]
-  /\ UNCHANGED <<file, armed, tset, nextSet, ncalls, wakes, stale>>
+            /\ poll' = [poll EXCEPT ![p] = PollRec("done", wakes, FALSE)]
+            /\ last' = [act |-> "PollBegin", p |-> p, res |-> "skipped", cbs |-> NoCb, handoff |-> "none"]
+  /\ UNCHANGED <<file, flp, lock, waiter, armed, tset, nextSet, ncalls, nrestarts, wakes, conn, stale, undone>>
 
-(* the activity goes on to its reconnect callback - unless a wake completed meanwhile *)
+(* the activity goes on to its reconnect callback (agent.doPoll starts) - unless a wake completed meanwhile *)
 PollCallback(p) ==
   /\ poll[p].pc = "unlocked"
   /\ IF poll[p].gen = wakes \/ "DevPollCallbackAfterWake" \in Dev
        THEN /\ poll' = [poll EXCEPT ![p].pc = "inCallback"]
             /\ stale' = (stale \/ poll[p].gen # wakes)
-            /\ last' = [act |-> "PollCallback", p |-> p, res |-> "callback", cbs |-> Cb("OnPoll", st)]
+            /\ conn' = TRUE
+            /\ last' = [act |-> "PollCallback", p |-> p, res |-> "callback", cbs |-> Cb("OnPoll", st), handoff |-> "none"]
        ELSE /\ poll' = [poll EXCEPT ![p].pc = "done"]
-            /\ UNCHANGED stale
-            /\ last' = [act |-> "PollCallback", p |-> p, res |-> "abandoned", cbs |-> NoCb]
-  /\ UNCHANGED <<st, file, armed, tset, nextSet, lp, pending, npolls, ncalls, wakes>>
+            /\ UNCHANGED <<stale, conn>>
+            /\ last' = [act |-> "PollCallback", p |-> p, res |-> "abandoned", cbs |-> NoCb, handoff |-> "none"]
+  /\ UNCHANGED <<st, file, flp, lock, waiter, armed, tset, nextSet, lp, pending, npolls, ncalls, nrestarts, wakes, undone>>
 
-(* the callback returns and the poll duration passes *)
+(* the callback returns (the agent's poll window ends: disconnect unless woken) and the poll duration passes *)
 PollWait(p) ==
   /\ poll[p].pc = "inCallback"
   /\ poll' = [poll EXCEPT ![p].pc = "relock"]
-  /\ UNCHANGED <<st, file, armed, tset, nextSet, lp, pending, npolls, ncalls, wakes, stale>>
-  /\ last' = [act |-> "PollWait", p |-> p, res |-> "ok", cbs |-> NoCb]
+  /\ LET keep == st = "AWAKE" /\ "DevAgentPollEndIgnoresWake" \notin Dev IN
+     /\ conn' = IF keep THEN conn ELSE FALSE
+     /\ undone' = (undone \/ (st = "AWAKE" /\ lock = "free" /\ ~keep))
+     /\ last' = [act |-> "PollWait", p |-> p, res |-> IF keep THEN "woken" ELSE "asleep", cbs |-> NoCb, handoff |-> "none"]
+  /\ UNCHANGED <<st, file, flp, lock, waiter, armed, tset, nextSet, lp, pending, npolls, ncalls, nrestarts, wakes, stale>>
 
 (* Manager.Poll, second critical section *)
 PollEnd(p) ==
-  /\ poll[p].pc = "relock"
+  /\ poll[p].pc = "relock" /\ lock = "free"
   /\ poll' = [poll EXCEPT ![p].pc = "done"]
   /\ IF (IF "DevStalePollEnd" \in Dev THEN st = "AWAKE" ELSE poll[p].gen # wakes)
-       THEN /\ UNCHANGED <<st, file, armed, tset, nextSet, stale>>
-            /\ last' = [act |-> "PollEnd", p |-> p, res |-> "woken", cbs |-> NoCb]
-       ELSE /\ st' = "SLEEPING" /\ armed' = TRUE /\ tset' = TRUE /\ nextSet' = TRUE /\ file' = "SLEEPING"
+       THEN /\ UNCHANGED <<st, file, flp, armed, tset, nextSet, stale>>
+            /\ last' = [act |-> "PollEnd", p |-> p, res |-> "woken", cbs |-> NoCb, handoff |-> "none"]
+       ELSE /\ st' = "SLEEPING" /\ armed' = TRUE /\ tset' = TRUE /\ nextSet' = TRUE /\ file' = "SLEEPING" /\ flp' = lp
             /\ stale' = (stale \/ poll[p].gen # wakes)
-            /\ last' = [act |-> "PollEnd", p |-> p, res |-> "ok", cbs |-> Cb("OnPollEnd", st)]
-  /\ UNCHANGED <<lp, pending, npolls, ncalls, wakes>>
+            /\ last' = [act |-> "PollEnd", p |-> p, res |-> "ok", cbs |-> Cb("OnPollEnd", st), handoff |-> "none"]
+  /\ UNCHANGED <<lock, waiter, lp, pending, npolls, ncalls, nrestarts, wakes, conn, undone>>
+
+(* the process is replaced: new Manager on the same data dir, LoadState (no file / unreadable file = AWAKE) *)
+Restart ==
+  /\ nrestarts < MaxRestarts /\ lock = "free" /\ waiter = 0 /\ pending = 0
+  /\ \A p \in Polls : poll[p].pc \in {"none", "done"}
+  /\ nrestarts' = nrestarts + 1
+  /\ st' = IF file = "none" THEN "AWAKE" ELSE file
+  /\ lp' = (file # "none" /\ flp)
+  /\ armed' = FALSE /\ tset' = FALSE /\ nextSet' = FALSE
+  /\ conn' = TRUE
+  /\ UNCHANGED <<file, flp, lock, waiter, pending, poll, npolls, ncalls, wakes, stale, undone>>
+  /\ last' = [act |-> "Restart", p |-> 0, res |-> "ok", cbs |-> NoCb, handoff |-> "none"]
 
 Next ==
-  \/ SleepCall \/ WakeCall \/ TimerFire \/ PollBegin
+  \/ SleepBegin \/ SleepEnd \/ WakeBegin \/ WakeEnd \/ TimerFire \/ PollEnter \/ PollBegin \/ Restart
   \/ \E p \in Polls : PollCallback(p) \/ PollWait(p) \/ PollEnd(p)
 
 Spec == Init /\ [][Next]_vars
@@ -163,25 +249,37 @@ Spec == Init /\ [][Next]_vars
 (* ---- properties (C30) -------------------------------------------------- *)
 TypeOK ==
   /\ st \in {"AWAKE", "SLEEPING", "POLLING"} /\ file \in {"none", "AWAKE", "SLEEPING", "POLLING"}
-  /\ \A p \in Polls : poll[p].pc \in {"none", "unlocked", "inCallback", "relock", "done"}
+  /\ lock \in {"free", "sleep", "wake"} /\ waiter \in 0..MaxPolls
+  /\ \A p \in Polls : poll[p].pc \in {"none", "waiting", "unlocked", "inCallback", "relock", "done"}
+  /\ (waiter > 0 => (lock # "free" /\ poll[waiter].pc = "waiting"))
 
-\* the state moves only along the documented transitions
-DocumentedEdges == [][st' # st => <<st, st'>> \in DocEdges]_vars
+\* the state moves only along the documented transitions (a restart re-reads the file: no transition)
+\* SleepEnd / WakeEnd with a hand-off are two transitions in one step: the call's own and the waiting poll's
+DocumentedEdges ==
+  [][last'.act # "Restart" =>
+       IF last'.act \in {"SleepEnd", "WakeEnd"} /\ last'.handoff = "polling"
+         THEN LET mid == IF last'.act = "SleepEnd" THEN "SLEEPING" ELSE "AWAKE" IN
+              (st = mid \/ <<st, mid>> \in DocEdges) /\ <<mid, st'>> \in DocEdges
+         ELSE st' # st => <<st, st'>> \in DocEdges]_vars
 
 \* sleeping while asleep and waking while awake are refused (and change nothing)
 RedundantRefused ==
-  [][/\ (last'.act = "SleepCall" /\ st # "AWAKE") => (last'.res = "refused" /\ UNCHANGED <<st, file, armed>>)
-     /\ (last'.act = "WakeCall" /\ st = "AWAKE") => (last'.res = "refused" /\ UNCHANGED <<st, file, armed>>)]_vars
+  [][/\ (last'.act = "SleepBegin" /\ st # "AWAKE") => (last'.res = "refused" /\ UNCHANGED <<st, file, armed, lock>>)
+     /\ (last'.act = "WakeBegin" /\ st = "AWAKE") => (last'.res = "refused" /\ UNCHANGED <<st, file, armed, lock>>)]_vars
 
 \* once a wake has completed, no poll activity that started earlier reconnects, disconnects or re-sleeps
 NoStalePollActivity == ~stale
+\* ... nor does the agent's poll cycle undo the wake at the end of its window
+WakeNotUndone == ~undone
 
-\* the persisted state matches the state after every completed transition (POLLING is persisted as SLEEPING by design)
+\* the persisted state matches the state after every completed transition (POLLING is persisted as SLEEPING by
+\* design), also after a restart; while a Sleep / Wake call is still inside its callback nothing has been completed
 Equiv(x) == IF x = "POLLING" THEN "SLEEPING" ELSE x
 PersistMatches == IF file = "none" THEN st = "AWAKE" /\ wakes = 0 ELSE Equiv(file) = Equiv(st)
 
 (* ---- edge emission ------------------------------------------------------ *)
-State == [st |-> st, file |-> file, armed |-> armed, tset |-> tset, nextSet |-> nextSet, lp |-> lp,
-          pending |-> pending, poll |-> poll, npolls |-> npolls, ncalls |-> ncalls, wakes |-> wakes, stale |-> stale]
+State == [st |-> st, file |-> file, flp |-> flp, lock |-> lock, waiter |-> waiter, armed |-> armed, tset |-> tset,
+          nextSet |-> nextSet, lp |-> lp, pending |-> pending, poll |-> poll, npolls |-> npolls, ncalls |-> ncalls,
+          nrestarts |-> nrestarts, wakes |-> wakes, conn |-> conn, stale |-> stale, undone |-> undone]
 EmitEdge == Emit => PrintT("EDGE " \o ToJson([s |-> State, a |-> last', t |-> State']))
 =============================================================================
